@@ -139,6 +139,24 @@ type BQHolder struct {
 	P *time.Time `plenc:"3,bq"`
 }
 
+// a back-reference carrying a tag option for which no codec is registered
+type RecTagged struct {
+	V    int        `plenc:"1"`
+	Next *RecTagged `plenc:"2,zzz"`
+}
+type RecTaggedSlice struct {
+	V    int              `plenc:"1"`
+	Kids []RecTaggedSlice `plenc:"2"`
+	Up   *RecTaggedSlice  `plenc:"3,flat"`
+}
+type MutTagA struct {
+	B *MutTagB `plenc:"1"`
+}
+type MutTagB struct {
+	A *MutTagA `plenc:"1,intern"`
+	X *MutTagA `plenc:"2,other"`
+}
+
 var catalogue = []reflect.Type{
 	reflect.TypeOf(Rec{}), reflect.TypeOf(RecMap{}), reflect.TypeOf(MutA{}), reflect.TypeOf(MutB{}),
 	reflect.TypeOf(Unexp{}), reflect.TypeOf(Named{}), reflect.TypeOf(Times{}), reflect.TypeOf(Ptrs{}),
